@@ -1,10 +1,53 @@
-(* C10 — ports under concurrent use.  (theorems are added as they are proved) *)
-From Coq Require Import ZArith List Bool.
-Require Import Mido.Model.Base Mido.Model.Codec Mido.Model.Conc.
+(* C10 — ports deliver each message exactly once and in order under concurrent use. *)
+From Coq Require Import ZArith List Bool Arith.
+Require Import Mido.Model.Base Mido.Model.Codec Mido.Model.Tokenizer Mido.Model.Parser Mido.Model.Sockets Mido.Model.Conc.
+Require Import Mido.Proofs.ConcProofs.
 Import ListNotations.
+
+(* For EVERY number of threads, EVERY program per thread (sends of valid messages, blocking and non-blocking receives, iter_pending),
+   EVERY schedule (a list of thread ids of any length; one entry = one access to the lock, the deque, the device or sleep) and every
+   lock-protected port kind (EchoPort; device port with one lock; IOPort = device port whose two directions have different locks): *)
+
+(* no send or receive call raises *)
+Theorem C10_no_raise : forall c, c_locking c = true -> forall progs, (forall t m, In (Send m) (progs t) -> valid m = true) ->
+  forall sched t e, at_ (snd (crun c sched (cinit progs)) t) <> Raised e.
+Proof. exact no_thread_raises. Qed.
+Print Assumptions C10_no_raise.
+
+(* EchoPort: received ++ still queued = the messages in the order they were appended - each exactly once, nothing invented *)
+Theorem C10_echo_exactly_once : forall c, c_locking c = true -> forall progs, (forall t m, In (Send m) (progs t) -> valid m = true) ->
+  forall sched, c_kind c = KEcho -> let s := fst (crun c sched (cinit progs)) in map snd (stream s) = recvd s ++ q s.
+Proof. exact echo_fifo. Qed.
+Print Assumptions C10_echo_exactly_once.
+
+(* device port and IOPort: the bytes of different messages never mix - whatever has been taken in is, intact and in order, a prefix
+   of the messages in the order their senders obtained the port (the complete ones among the bytes read so far) *)
+Theorem C10_device_intact : forall c, c_locking c = true -> forall progs, (forall t m, In (Send m) (progs t) -> valid m = true) ->
+  forall sched, c_kind c = KDevice -> let s := fst (crun c sched (cinit progs)) in
+  recvd s ++ q s = complete_prefix (map snd (stream s)) (length (allread s)) /\ exists rest, map snd (stream s) = (recvd s ++ q s) ++ rest.
+Proof. exact device_intact. Qed.
+Print Assumptions C10_device_intact.
+(* ... and once no sender is writing and the device has been read empty, that is everything that was sent *)
+Theorem C10_device_all_delivered : forall c, c_locking c = true -> forall progs, (forall t m, In (Send m) (progs t) -> valid m = true) ->
+  forall sched, c_kind c = KDevice -> let '(s, ts) := crun c sched (cinit progs) in
+  (forall t m r, at_ (ts t) <> SWrite m r) -> devbuf s = [] -> map snd (stream s) = recvd s ++ q s.
+Proof. exact device_all_delivered. Qed.
+Print Assumptions C10_device_all_delivered.
+
+(* messages from one sender are taken in in the order it sent them: thread t's part of the stream is its begun sends in program order *)
+Theorem C10_sender_order : forall c, c_locking c = true -> forall progs, (forall t m, In (Send m) (progs t) -> valid m = true) ->
+  forall sched t, let '(s, ts) := crun c sched (cinit progs) in sends (progs t) = mine t (stream s) ++ pending_sends (c_kind c) (ts t).
+Proof. exact sender_order. Qed.
+Print Assumptions C10_sender_order.
+
+(* without the lock (a DummyLock on a port whose deque is shared - IOPort.receive before its repair) the property fails: a schedule *)
+Theorem C10_unlocked_refuted : at_ (snd (crun unlocked [0; 0; 0; 1; 1; 2; 2; 1; 2]%nat (cinit race_progs)) 2%nat) = Raised IndexError.
+Proof. exact unlocked_refuted. Qed.
+Print Assumptions C10_unlocked_refuted.
+
 Example C10_nonvacuous :
-  let cf := {| c_locking := true; c_kind := KEcho; c_same_lock := true |} in
-  let progs := fun t => match t with 0%nat => [Send (NoteOn 0 1 2)] | 1%nat => [Recv false] | _ => [] end in
-  results (snd (crun cf [0; 0; 0; 1; 1; 1; 1]%nat (cinit progs)) 1%nat) = [RGot (Some (NoteOn 0 1 2))].
+  let cf := {| c_locking := true; c_kind := KDevice; c_same_lock := false |} in
+  let progs := fun t => match t with 0%nat => [Send (NoteOn 0 1 2)] | 1%nat => [Send (NoteOn 0 3 4)] | 2%nat => [Recv true; Recv false] | _ => [] end in
+  results (snd (crun cf [0; 0; 2; 2; 0; 1; 2; 2; 0; 0; 2; 2; 2; 2; 1; 1; 1; 1; 2; 2; 2; 2; 2; 2; 2; 2; 2; 2; 2; 2; 2; 2; 2; 2]%nat (cinit progs)) 2%nat)
+  = [RGot (Some (NoteOn 0 1 2)); RGot (Some (NoteOn 0 3 4))].
 Proof. vm_compute. reflexivity. Qed.
-Print Assumptions C10_nonvacuous.
